@@ -434,6 +434,7 @@ func (s *levelsController) levelTargets() targets {
 	// version of the key still lives in a skipped level: deleted keys come back.
 	for i := 1; i < t.baseLevel; i++ {
 		if s.levels[i].getTotalSize() > 0 {
+			vhook.Event("levels.baseClamped", uint64(t.baseLevel), uint64(i))
 			t.baseLevel = i
 			break
 		}
